@@ -4,7 +4,7 @@
 EXTENDS PipelineDefs, Json
 CONSTANT Thorough
 VARIABLE c
-GAxes == IF Thorough THEN AllAxes ELSE {"enu", "wsu", "nwu", "neu"}
+GAxes == IF Thorough THEN AllAxes ELSE {"enu", "wsu", "nwu", "neu", "wdn"}
 GExps == IF Thorough THEN AllExps ELSE {0, 1, -1}
 GCfgs == [sk : Kinds, dk : Kinds, sa : GAxes, da : GAxes, se : GExps, de : GExps]
 GenInit == c \in {[kind |-> "pipe", cfg |-> x] : x \in GCfgs} /\ PrintT(ToJson(c))
